@@ -67,7 +67,15 @@ pub fn load_container<T: Deserialize + WithSchema>(container: &str, version: u32
     }
 }
 
-pub fn run<T: Serialize + Deserialize + WithSchema + Packed + Canon>(op: &str, toks: &[&str], values: fn() -> Vec<T>) -> String {
+pub fn run<T: Serialize + Deserialize + WithSchema + Packed + Canon + Introspect>(op: &str, toks: &[&str], values: fn() -> Vec<T>) -> String {
+    if let Some(r) = crate::intro_ops::run::<T>(op, toks, values) {
+        return r;
+    }
+    run_base::<T>(op, toks, values)
+}
+
+/// for root types without an Introspect impl (Cell<T>)
+pub fn run_base<T: Serialize + Deserialize + WithSchema + Packed + Canon>(op: &str, toks: &[&str], values: fn() -> Vec<T>) -> String {
     if let Some(r) = crate::io_ops::run::<T>(op, toks, values) {
         return r;
     }
